@@ -28,14 +28,20 @@ def run_case(ctx):
     src = ctx.src
     common.draw_env(ctx)
     common.prelude(ctx)
-    m = world.gen_mesh(src, tag="w", force_3d=True, max_levels=4, max_boxes=20)
-    names = world.gen_fields(src, tag="w", nmax=4)
-    has_vf = bool(src.draw("volfrac.field", 0, 1))
-    if has_vf and "volFrac" not in names:
-        names.insert(src.draw("volfrac.pos", 0, len(names)), "volFrac")
-    m.fields = names
-    world.gen_layout(src, m, tag="w")
-    world.fill_random(m, src.draw("w.dataseed", 0, 999999))
+    if src.flag("megabox", 120):
+        # scale class: a single box with more than 2**20 cells (size-gated and chunked read paths)
+        m = world.gen_scale_world(src, "megabox", tag="w")
+        names = list(m.fields)
+        ctx.probe("megabox")
+    else:
+        m = world.gen_mesh(src, tag="w", force_3d=True, max_levels=4, max_boxes=20)
+        names = world.gen_fields(src, tag="w", nmax=4)
+        has_vf = bool(src.draw("volfrac.field", 0, 1))
+        if has_vf and "volFrac" not in names:
+            names.insert(src.draw("volfrac.pos", 0, len(names)), "volFrac")
+        m.fields = names
+        world.gen_layout(src, m, tag="w")
+        world.fill_random(m, src.draw("w.dataseed", 0, 999999))
     if "volFrac" in names:
         rng = np.random.default_rng(src.draw("vf.seed", 0, 9999))
         k = names.index("volFrac")
